@@ -365,6 +365,20 @@ def window():
             steps += [{"e": "poll"}] * 12
             progs.append({"cfg": {"rx": 128, "tx": 1152, "ka": 0, "sei": 300, "client_id": b("win%d" % n), "name": "window-%d" % n},
                           "steps": steps, "connack": ck})
+    # exchanges carried over a resumed reconnect whose CONNACK announces a Receive Maximum above / at the client's own
+    # limit: the window of the new connection is the clamped value minus what is carried over (S-C06-h clamped after
+    # subtracting), so of eight further publishes exactly 8 - u are accepted and the rest refused with NotReady
+    for rm in (None, 20, 65535, 9, 8):
+        for u, q in ((3, 1), (3, 2), (5, 1), (1, 2)):
+            n += 1
+            steps = [{"e": "publish", "qos": q, "topic": b("c/%d" % i), "payload": b("u%d" % i), "props": []} for i in range(u)]
+            ck = [] if rm is None else [{"id": 0x21, "n": rm, "s": [], "t": []}]
+            steps.append({"e": "reconnect", "connack": ck})
+            for i in range(8):
+                steps.append({"e": "publish", "qos": 1 + i % 2, "topic": b("c2/%d" % i), "payload": b("y"), "props": []})
+            steps += [{"e": "poll"}] * 40
+            progs.append({"cfg": {"rx": 128, "tx": 1152, "ka": 0, "sei": 300, "client_id": b("win%d" % n), "name": "window-%d" % n},
+                          "steps": steps, "connack": ck})
     return progs
 
 
